@@ -106,6 +106,7 @@ int main (int argc, char **argv)
       if (n == 0) continue;
       if (!strcmp (tok[0], "G")) op_gensalt (n, tok);
       else if (!strcmp (tok[0], "K")) op_checksalt (n, tok);
+      else if (!strcmp (tok[0], "KE")) op_checksalt_enum (n, tok);
       else if (!strcmp (tok[0], "P")) op_preferred (n, tok);
       else if (!strcmp (tok[0], "OS")) { int isn; size_t l; unsigned char *p = unhex (tok[1], &l, &isn);
           os_real = isn; os_len = l > sizeof os_bytes ? sizeof os_bytes : l; os_pos = 0;
